@@ -413,12 +413,12 @@ func main() {
 		for t := 0; t < ntx; t++ {
 			var m msgSpec
 			m.kind, m.caller = "call", []string{"u", "u", "v", "poor"}[rng.Intn(4)]
-			n, size := 1+rng.Intn(4), 8+rng.Intn(300)
+			n, size := 1+rng.Intn(4), 8+rng.Intn(200)
 			switch k := rng.Intn(100); {
 			case k < 22:
 				m.realm, m.fn, m.args = []string{"a", "b"}[rng.Intn(2)], "Grow", []string{itoa(n), itoa(size)}
 			case k < 38:
-				m.realm, m.fn, m.args = []string{"a", "b"}[rng.Intn(2)], "Shrink", []string{itoa(n)}
+				m.realm, m.fn, m.args = []string{"a", "b"}[rng.Intn(2)], "Shrink", []string{itoa(n + rng.Intn(4))}
 			case k < 46:
 				m.realm, m.fn, m.args = []string{"a", "b"}[rng.Intn(2)], "Rewrite", []string{itoa(n), itoa(size)}
 			case k < 52:
